@@ -463,7 +463,7 @@ pub fn check() -> Check {
     Check {
         id: "C01",
         level: "exploration",
-        rule: "random multisets of 1..=12 updates over addresses 1..=4 x generations 0..=3 x incarnations {0,1,2,3,MAX-2,MAX-1,MAX}+uniform x 3 states, each applied to fresh instances in every permutation (|U|<=5) or 24 random ones, with duplications, batch splits, do_broadcast on/off and through Gossip datagrams, compared with an executable join model; all ordered 3- (and 4-) tuples over a 36-update reduced domain; two-way full-state exchanges between instances with independent random histories. Non-trivial: some address receives >=2 distinct updates (perm), tuple not constant (exh), both prior states non-empty and different (exchange); distinct by multiset / tuple / state pair. 'forget': single-instance histories of updates interleaved with the forget-timers the instance itself scheduled (handed back at any later point), compared after every step with a sequential model (join + forget of exactly the named Down identity); a record may only disappear in the step that hands back the forget-timer of exactly its identity.",
+        rule: "random multisets of 1..=12 updates over addresses 1..=4 x generations 0..=3 x incarnations {0,1,2,3,MAX-2,MAX-1,MAX}+uniform x 3 states, each applied to fresh instances in every permutation (|U|<=5) or 24 random ones, with duplications, batch splits, do_broadcast on/off and through Gossip datagrams, compared with an executable join model; all ordered 3- (and 4-) tuples over a 36-update reduced domain; two-way full-state exchanges between instances with independent random histories. Non-trivial: some address receives >=2 distinct updates (perm), tuple not constant (exh), both prior states non-empty and different (exchange); distinct by multiset / tuple / state pair. 'forget': single-instance histories of updates interleaved with the forget-timers the instance itself scheduled (handed back at any later point), compared after every step with a sequential model (join + forget of exactly the named Down identity); a record may only disappear in the step that hands back the forget-timer of exactly its identity. A quarter of the instances use packets smaller than a member's encoding; a third of the deliveries have updates about the instance itself mixed in.",
         assumptions: &[
             "Identity::win_addr_conflict is a total order on identities sharing an address (harness identity: higher generation wins)",
             "own-address updates are excluded here (C09/C10 own them)",
